@@ -167,7 +167,7 @@ def run(ctx):
         err = res.err.decode(errors="replace")
         last = err.strip().splitlines()[-1] if err.strip() else ""
         if res.timed_out or (res.sig in (signal.SIGXCPU, signal.SIGKILL)):
-            if dep <= 10000 and res.sig != signal.SIGKILL:
+            if dep <= 10000 and (res.timed_out or res.sig == signal.SIGXCPU):
                 # "either complete or raise": at these sizes 170 CPU-seconds is not slowness; confirm once before calling it a hang
                 res2 = core.run([exe, paths[name], str(dep)], timeout=180, cpu=170, mem_mb=6000, stack_kb=8192, san=False)
                 core.discard(res2)
